@@ -121,6 +121,10 @@ def check_profile(info, st, profile, truth, order, sched):
                 counts["nt_locked"] += 1
                 if runs[n] or not rdy[n]:
                     return f"locked.only_when_ready: cycle {k}: {n} marked locked with ready={rdy[n]} run={runs[n]}", counts
+                unready = [m_ for m_ in st.calltree[n] if not rdy.get(m_, 1)]
+                if unready:
+                    return (f"locked.only_when_runnable: cycle {k}: {n} marked locked although it could not run anyway "
+                            f"(methods {unready} it calls are not ready)"), counts
                 if B[other].kind != "t" or not runs[other] or other not in st.conf[n]:
                     return (f"locked.by_conflicting: cycle {k}: {n} marked locked by {other} (ran={runs.get(other)}, "
                             f"conflicts with {sorted(st.conf[n])})"), counts
